@@ -4,6 +4,7 @@ import SimbodyProofs.TreeDynRefine
 import Mathlib.Tactic.Ring
 import Mathlib.Tactic.FieldSimp
 import Mathlib.Tactic.LinearCombination
+import Mathlib.Tactic.NormNum
 
 /-!
 # C15 — system mass, momentum and composite inertias equal per-body sums
@@ -36,7 +37,9 @@ theorem sumK_acc (xs : List K) (a : K) : xs.foldl (· + ·) a = a + sumK xs := b
   | cons x xs ih => simp only [sumK, List.foldl_cons] at *; rw [ih, ih (0 + x)]; ring
 
 theorem sumK_cons (x : K) (xs : List K) : sumK (x :: xs) = x + sumK xs := by
-  simp only [sumK, List.foldl_cons]; rw [sumK_acc]; ring
+  have h := sumK_acc xs (0 + x)
+  simp only [sumK, List.foldl_cons] at *
+  rw [h]; ring
 
 theorem sumV3_acc (xs : List (V3 K)) (a : V3 K) : xs.foldl V3.add a = a.add (sumV3 xs) := by
   induction xs generalizing a with
@@ -47,7 +50,9 @@ theorem sumV3_acc (xs : List (V3 K)) (a : V3 K) : xs.foldl V3.add a = a.add (sum
     apply V3.ext' <;> simp [V3.add, V3.zero] <;> ring
 
 theorem sumV3_cons (x : V3 K) (xs : List (V3 K)) : sumV3 (x :: xs) = x.add (sumV3 xs) := by
-  simp only [sumV3, List.foldl_cons]; rw [sumV3_acc]
+  have h := sumV3_acc xs (V3.zero.add x)
+  simp only [sumV3, List.foldl_cons] at *
+  rw [h]
   apply V3.ext' <;> simp [V3.add, V3.zero]
 
 theorem foldl_SV_v (xs : List (SV K)) (a : SV K) :
@@ -92,8 +97,8 @@ theorem body_momentum_is_spatial (b : C15.BodyKin K) :
       BodyKin.comVel, phiMul, SpI.mulSV, SV.smul, V3.smul, V3.add, V3.sub, V3.cross, Sym3.mulVec, Sym3.smul,
       Sym3.sub, Sym3.pointMassAt]
     congr 1
-    · apply V3.ext' <;> simp <;> ring
-    · apply V3.ext' <;> simp <;> ring
+    · apply V3.ext' <;> dsimp only <;> ring
+    · apply V3.ext' <;> dsimp only <;> ring
 
 /-- the mass-centre velocity is the velocity of the station at the mass centre: the linear part of `~Φ(p) V` -/
 theorem com_velocity_is_station_velocity (b : C15.BodyKin K) : b.comVel = (phiTMul b.Mk.p b.V).v := rfl
@@ -118,19 +123,115 @@ theorem origin_inertia_is_shift (b : C15.BodyKin K) :
     congr 3
     apply V3.ext' <;> simp <;> ring
 
+/-! ## parallel-axis theorem for the system: central inertia = Σ (body central inertia + m·pointMass(r_k − com)) -/
+
+theorem Sym3.ext' {a b : Sym3 K} (h0 : a.a00 = b.a00) (h1 : a.a11 = b.a11) (h2 : a.a22 = b.a22)
+    (h3 : a.a10 = b.a10) (h4 : a.a20 = b.a20) (h5 : a.a21 = b.a21) : a = b := by
+  cases a; cases b; simp_all
+
+theorem sumSym_acc (xs : List (Sym3 K)) (a : Sym3 K) : xs.foldl Sym3.add a = a.add (sumSym xs) := by
+  induction xs generalizing a with
+  | nil => apply Sym3.ext' <;> simp [sumSym, Sym3.add, Sym3.zero]
+  | cons x xs ih =>
+    simp only [sumSym, List.foldl_cons] at *
+    rw [ih, ih (Sym3.zero.add x)]
+    apply Sym3.ext' <;> simp [Sym3.add, Sym3.zero] <;> ring
+
+theorem sumSym_cons (x : Sym3 K) (xs : List (Sym3 K)) : sumSym (x :: xs) = x.add (sumSym xs) := by
+  have h := sumSym_acc xs (Sym3.zero.add x)
+  simp only [sumSym, List.foldl_cons] at *
+  rw [h]
+  apply Sym3.ext' <;> simp [Sym3.add, Sym3.zero]
+
+/-- the mixed term of `pointMassAt(r − c)` summed with weights: built from `S = Σ m r` and `c` -/
+def crossSym (S c : V3 K) : Sym3 K :=
+  ⟨2 * (S.y * c.y + S.z * c.z), 2 * (S.x * c.x + S.z * c.z), 2 * (S.x * c.x + S.y * c.y),
+   -(S.x * c.y + S.y * c.x), -(S.x * c.z + S.z * c.x), -(S.y * c.z + S.z * c.y)⟩
+
+/-- body central inertia re-referred to an arbitrary point `c` -/
+def inertiaAbout (c : V3 K) (b : C15.BodyKin K) : Sym3 K :=
+  b.centralInertia.add (Sym3.smul b.Mk.m (Sym3.pointMassAt (b.comLoc.sub c)))
+
+theorem inertia_about_point (c : V3 K) : ∀ (bs : List (C15.BodyKin K)),
+    sumSym (bs.map (inertiaAbout c))
+      = ((sysOriginInertia bs).sub (crossSym (weighted bs BodyKin.comLoc) c)).add
+          (Sym3.smul (sysMass bs) (Sym3.pointMassAt c))
+  | [] => by
+      apply Sym3.ext' <;>
+        simp [sumSym, sysOriginInertia, weighted, sysMass, sumK, sumV3, crossSym, Sym3.add, Sym3.sub, Sym3.smul,
+          Sym3.zero, V3.zero]
+  | b :: bs => by
+      have ih := inertia_about_point c bs
+      simp only [sysOriginInertia, weighted, sysMass, List.map_cons, sumSym_cons, sumV3_cons, sumK_cons] at *
+      rw [ih]
+      cases b with
+      | mk Mk pos V A =>
+        cases Mk; cases pos; cases c
+        apply Sym3.ext' <;>
+          simp only [inertiaAbout, BodyKin.centralInertia, BodyKin.originInertia, BodyKin.comLoc, crossSym, Sym3.add,
+            Sym3.sub, Sym3.smul, Sym3.pointMassAt, V3.add, V3.sub, V3.smul] <;> ring
+
+/-- **the system central inertia is the sum over the bodies of their central inertias plus the parallel-axis terms
+`m_k pointMass(r_k − com)`** -/
+theorem central_inertia_is_sum (bs : List (C15.BodyKin K)) (hM : sysMass bs ≠ 0) :
+    sysCentralInertia bs = sumSym (bs.map (inertiaAbout (sysCom bs))) := by
+  rw [inertia_about_point]
+  simp only [sysCentralInertia, sysCom, divV3]
+  generalize weighted bs BodyKin.comLoc = S
+  generalize sysOriginInertia bs = Q
+  generalize sysMass bs = M at hM ⊢
+  cases S; cases Q
+  apply Sym3.ext' <;>
+    simp only [crossSym, Sym3.add, Sym3.sub, Sym3.smul, Sym3.pointMassAt] <;> field_simp <;> ring
+
+/-- non-vacuity of the hypothesis `sysMass bs ≠ 0` (and of `a.m + b.m ≠ 0` below): a two-body system over ℚ -/
+example : sysMass ([⟨⟨2, ⟨1, 0, 0⟩, ⟨1, 1, 1, 0, 0, 0⟩⟩, ⟨1, 0, 0⟩, ⟨⟨0, 0, 1⟩, ⟨0, 1, 0⟩⟩, SV.zero⟩,
+                     ⟨⟨3, ⟨0, 1, 0⟩, ⟨2, 1, 2, 0, 0, 0⟩⟩, ⟨0, 2, 0⟩, SV.zero, SV.zero⟩] : List (C15.BodyKin ℚ)) ≠ 0 := by
+  norm_num [sysMass, sumK]
+
 /-! ## the structured spatial-inertia operations are the dense ones -/
+
+theorem crossM_smul_add (m : K) (p l : V3 K) :
+    crossM (V3.smul m (p.sub (V3.neg l))) = crossM (V3.smul m p) + m • crossM l := by
+  ext i j
+  fin_cases i <;> fin_cases j <;>
+    simp [crossM, M33.crossMat, M33.toMat, V3.smul, V3.sub, V3.neg] <;> ring
+
+theorem shift_G_block (m : K) (p l : V3 K) (G : Sym3 K) :
+    m • ((G.sub (Sym3.pointMassAt p)).add (Sym3.pointMassAt (p.sub (V3.neg l)))).toMat
+      = m • G.toMat + crossM l * (-(crossM (V3.smul m p)))
+        + (crossM (V3.smul m p) + crossM l * (m • (1 : Matrix (Fin 3) (Fin 3) K))) * (crossM l)ᵀ := by
+  ext i j
+  fin_cases i <;> fin_cases j <;>
+    simp [Sym3.sub, Sym3.add, Sym3.pointMassAt, Sym3.toMat, crossM, M33.crossMat, M33.toMat, V3.smul, V3.sub, V3.neg,
+      Matrix.mul_apply, Fin.sum_univ_three, Matrix.one_apply, Matrix.vecMul, dotProduct, vecHead, vecTail] <;> ring
 
 /-- `SpatialInertia::shift(−l)` (re-origin from the child's origin to the parent's) is `Φ(l) M Φ(l)ᵀ` -/
 theorem spatialInertia_shift_toMat (a : SpI K) (l : V3 K) :
     (a.shift (V3.neg l)).toMat = phiMat l * a.toMat * (phiMat l)ᵀ := by
   cases a with
   | mk m p G =>
-    cases p; cases G; cases l
-    simp only [phiMat, SpI.toMat, fromBlocks_transpose, fromBlocks_multiply]
-    ext i j
-    rcases i with i | i <;> rcases j with j | j <;> fin_cases i <;> fin_cases j <;>
-      simp [SpI.shift, Sym3.sub, Sym3.add, Sym3.pointMassAt, V3.sub, V3.neg, V3.smul, Sym3.toMat, crossM, M33.crossMat,
-        M33.toMat, Matrix.mul_apply, Fin.sum_univ_three, Matrix.one_apply, Matrix.vecMul, dotProduct, vecHead, vecTail] <;> ring
+    simp only [phiMat, SpI.toMat, fromBlocks_transpose, fromBlocks_multiply, SpI.shift]
+    rw [crossM_smul_add, shift_G_block]
+    simp only [transpose_one, transpose_zero, Matrix.one_mul, Matrix.mul_one, Matrix.zero_mul, Matrix.mul_zero,
+      add_zero, zero_add, crossM_transpose, Matrix.mul_smul, Matrix.smul_mul, Matrix.mul_neg, neg_add_rev]
+    congr 1
+    simp only [smul_zero, add_zero]
+    abel
+
+theorem add_G_block (ma mb : K) (Ga Gb : Sym3 K) (h : ma + mb ≠ 0) :
+    (ma + mb) • (Sym3.smul (1 / (ma + mb)) ((Sym3.smul ma Ga).add (Sym3.smul mb Gb))).toMat
+      = ma • Ga.toMat + mb • Gb.toMat := by
+  ext i j
+  fin_cases i <;> fin_cases j <;>
+    simp [Sym3.smul, Sym3.add, Sym3.toMat] <;> field_simp
+
+theorem add_p_block (ma mb : K) (pa pb : V3 K) (h : ma + mb ≠ 0) :
+    crossM (V3.smul (ma + mb) (V3.smul (1 / (ma + mb)) ((V3.smul ma pa).add (V3.smul mb pb))))
+      = crossM (V3.smul ma pa) + crossM (V3.smul mb pb) := by
+  ext i j
+  fin_cases i <;> fin_cases j <;>
+    simp [crossM, M33.crossMat, M33.toMat, V3.smul, V3.add] <;> field_simp <;> ring
 
 /-- `SpatialInertia::operator+=` (mass-weighted recombination of mass centre and unit inertia) is the matrix sum -/
 theorem spatialInertia_add_toMat (a b : SpI K) (h : a.m + b.m ≠ 0) :
@@ -139,13 +240,12 @@ theorem spatialInertia_add_toMat (a b : SpI K) (h : a.m + b.m ≠ 0) :
   | mk ma pa Ga =>
     cases b with
     | mk mb pb Gb =>
-      cases pa; cases Ga; cases pb; cases Gb
       simp only at h
-      simp only [SpI.toMat, fromBlocks_add]
-      ext i j
-      rcases i with i | i <;> rcases j with j | j <;> fin_cases i <;> fin_cases j <;>
-        simp [SpI.add, Sym3.smul, Sym3.add, V3.smul, V3.add, Sym3.toMat, crossM, M33.crossMat, M33.toMat,
-          Matrix.one_apply] <;> field_simp <;> ring
+      simp only [SpI.toMat, fromBlocks_add, SpI.add]
+      rw [add_G_block ma mb Ga Gb h, add_p_block ma mb pa pb h]
+      congr 1
+      · rw [neg_add]
+      · rw [add_smul]
 
 /-! ## composite body inertia = sum over the subtree (abstract tree) -/
 section composite
@@ -201,19 +301,18 @@ theorem composite_kids : ∀ (cs : List (MBT K ι)), cbiKids cs = inertiaSum (sh
       rw [this]
 end
 
+mutual
 /-- every body of the subtree appears exactly once in the sum -/
-theorem shifted_bodies : ∀ (t : MBT K ι), (shifted t).map (fun x => x.2) = bds t := by
-  intro t
-  exact shifted_bodies_aux t
-where
-  shifted_bodies_aux : ∀ (t : MBT K ι), (shifted t).map (fun x => x.2) = bds t := by
-    intro t
-    induction t using MBT.rec (motive_2 := fun cs => (shiftedKids cs).map (fun x => x.2) = bdsL cs) with
-    | mk n cs ih => simp only [shifted, bds, List.map_cons, ih]
-    | nil => simp [shiftedKids, bdsL]
-    | cons c cs ihc ihcs =>
-      simp only [shiftedKids, bdsL, List.map_append, List.map_map, ← ihc, ← ihcs]
+theorem shifted_bodies : ∀ (t : MBT K ι), (shifted t).map (fun x => x.2) = bds t
+  | MBT.mk n cs => by
+      simp only [shifted, bds, List.map_cons, shifted_bodies_kids cs]
+theorem shifted_bodies_kids : ∀ (cs : List (MBT K ι)), (shiftedKids cs).map (fun x => x.2) = bdsL cs
+  | [] => by simp [shiftedKids, bdsL]
+  | c :: cs => by
+      simp only [shiftedKids, bdsL, List.map_append, List.map_map, ← shifted_bodies c, ← shifted_bodies_kids cs]
       rfl
+end
+
 end composite
 
 end C15
